@@ -414,297 +414,330 @@ Definition is_nullsafe (n : node) : bool :=
 Section Walk.
 Variable cf : cfg.
 
-(* helpers that need the recursive call are written as local fixes inside [walk] *)
+(* The walker is written in open-recursion style: [walk_body w n] is one
+   unfolding of state.walk on node [n] in which every recursive call is [w];
+   [walk (S fuel) = walk_body (walk fuel)].  Every Go loop of the walker is a
+   top-level fixpoint over its list, parametrised by [w], so that each can be
+   given its own lemma. *)
+Section Body.
+Variable w : node -> M value.
+
+Definition eval (e : node) : M value :=                (* state.eval: s.node is restored on normal return *)
+  st0 <-- get ;;;
+  v <-- w e ;;;
+  _ <-- modify (fun st => set_cur st (cur st0)) ;;;
+  ret v.
+Definition evaldef (e : node) : M value :=
+  v <-- eval e ;;;
+  match v with VUndef => fail e_undefined | _ => ret v end.
+Fixpoint eval_list (es : list node) : M (list value) :=
+  match es with
+  | [] => ret []
+  | e :: r => v <-- eval e ;;; vs <-- eval_list r ;;; ret (v :: vs)
+  end.
+Fixpoint walk_list (ns : list node) : M unit :=
+  match ns with
+  | [] => ret tt
+  | x :: r => _ <-- w x ;;; walk_list r
+  end.
+Definition render_block (body : node) : M bstr :=      (* renderBlock: capture into a fresh buffer *)
+  _ <-- modify (fun st => set_bufs st ([] :: bufs st)) ;;;
+  _ <-- w body ;;;
+  st <-- get ;;;
+  match bufs st with
+  | buf :: rest => _ <-- modify (fun st => set_bufs st rest) ;;; ret (concat_b (rev buf))
+  | [] => fail e_impossible
+  end.
+
+Fixpoint maplit_items (l : list (bstr * node)) : M (list (bstr * value)) :=
+  match l with
+  | [] => ret []
+  | (k, e) :: r => v <-- eval e ;;; m <-- maplit_items r ;;; ret (map_set m k v)
+  end.
+
+Definition loop_func (name : bstr) (args : list node) : M value :=
+  match args with
+  | NDataRef _ key _ :: _ =>
+      ix <-- m_lookup (key ++ s_index) ;;;
+      if fn_is name n_index then ret ix
+      else match ix with
+           | VInt i =>
+               if fn_is name n_isFirst then ret (VBool (i =? 0)%Z)
+               else
+                 li <-- m_lookup (key ++ s_lastindex) ;;;
+                 match li with VInt l => ret (VBool (i =? l)%Z) | _ => fail e_type end
+           | _ => fail e_type
+           end
+  | _ => fail e_type
+  end.
+
+Definition call_func (name : bstr) (args : list node) : M value :=
+  match func_arities name with
+  | None => fail e_func
+  | Some ar =>
+      if negb (mem (N.of_nat (length args)) ar) then fail e_arity
+      else
+        vs <-- eval_list args ;;;
+        r <-- lift (apply_func name vs) ;;;
+        match r with
+        | FVal v => ret v
+        | FNewList l => fresh_list_or_nil l
+        | FNewMap m => fresh_map m
+        end
+  end.
+
+Fixpoint dataref_access (acc : list node) (ref : value) : M value :=
+  match acc with
+  | [] => ret ref
+  | a :: rest =>
+      ik <-- match a with
+             | NAccIndex _ _ i => ret (Some i, @nil N)
+             | NAccKey _ _ k => ret (None, k)
+             | NAccExpr _ _ e =>
+                 kv <-- eval e ;;;
+                 match kv with
+                 | VInt i => ret (Some i, @nil N)
+                 | _ => s <-- lift (value_string kv) ;;; ret (None, s)
+                 end
+             | _ => fail e_unknown
+             end ;;;
+      let '(oi, k) := ik in
+      match ref with
+      | VUndef | VNull => if is_nullsafe a then ret VNull else fail e_nullref
+      | VList _ l =>
+          match oi with
+          | Some i => if (i =? -1)%Z then fail e_index else dataref_access rest (list_index l i)
+          | None => fail e_index
+          end
+      | VMap _ m =>
+          match k with
+          | [] => fail e_key
+          | _ => dataref_access rest (map_key m k)
+          end
+      | _ => fail e_noncollection
+      end
+  end.
+
+(* evalPrint checks each directive's name and arity before evaluating its arguments *)
+Fixpoint print_dirs (l : list node) : M (list (bstr * list darg)) :=
+  match l with
+  | [] => ret (map (fun nm => (nm, @nil darg)) (c_oblig cf))
+  | NDirective _ name args :: r =>
+      match lookup_directive name with
+      | None => fail e_nodirective
+      | Some (arglens, _) =>
+          if negb (check_num_args arglens (length args)) then fail e_arity
+          else vs <-- eval_list args ;;; rest <-- print_dirs r ;;; ret ((name, map darg_of vs) :: rest)
+      end
+  | _ :: _ => fail e_unknown
+  end.
+
+Fixpoint if_conds (cs : list node) : M value :=
+  match cs with
+  | [] => ret VUndef
+  | NIfCond _ None body :: _ => _ <-- w body ;;; ret VUndef
+  | NIfCond _ (Some c) body :: r =>
+      v <-- eval c ;;;
+      if truthy v then (_ <-- w body ;;; ret VUndef) else if_conds r
+  | _ :: _ => fail e_unknown
+  end.
+
+Fixpoint for_items (var : bstr) (body : node) (i : Z) (items : list value) : M unit :=
+  match items with
+  | [] => ret tt
+  | x :: r =>
+      _ <-- m_set var x ;;;
+      _ <-- m_set (var ++ s_index) (VInt i) ;;;
+      _ <-- w body ;;;
+      for_items var body (i + 1)%Z r
+  end.
+
+Fixpoint case_hit (sv : value) (vs : list node) : M bool :=
+  match vs with
+  | [] => ret false
+  | x :: xs => cv <-- eval x ;;; if equals sv cv then ret true else case_hit sv xs
+  end.
+Fixpoint switch_cases (sv : value) (cs : list node) : M value :=
+  match cs with
+  | [] => ret VUndef
+  | NSwitchCase _ values body :: r =>
+      hit <-- case_hit sv values ;;;
+      if hit || match values with [] => true | _ => false end
+      then (_ <-- w body ;;; ret VUndef) else switch_cases sv r
+  | _ :: _ => fail e_unknown
+  end.
+
+(* params are evaluated in the caller's scope and set on the callee's *)
+Fixpoint call_params (ps : list node) (cd : scope) : M scope :=
+  match ps with
+  | [] => ret cd
+  | NParamValue _ k v :: r => x <-- eval v ;;; call_params r (sc_set cd k x)
+  | NParamContent _ k c :: r => s <-- render_block c ;;; call_params r (sc_set cd k (VStr s))
+  | _ :: _ => fail e_unknown
+  end.
+
+Definition call_data (alldata : bool) (dat : option node) : M scope :=
+  caller <-- get ;;;
+  if alldata then
+    match sc_alldata (ctx caller) with
+    | Some s => ret (sc_push s)
+    | None => fail e_impossible
+    end
+  else match dat with
+       | Some e =>
+           dv <-- eval e ;;;
+           match dv with
+           | VMap id m => ret (sc_push (new_scope id m))
+           | _ => fail e_notmap
+           end
+       | None => ret [fresh_frame]
+       end.
+
+(* the callee runs in a fresh state (scope, autoescape); the caller's are back afterwards, on every outcome *)
+Definition call_enter (callee : template) (cd : scope) : M value :=
+  st1 <-- get ;;;
+  let saved_ctx := ctx st1 in
+  let saved_mode := mode st1 in
+  let saved_depth := depth_ st1 in
+  _ <-- modify (fun st => set_depth (set_mode (set_ctx st (sc_enter cd)) (call_mode (t_ns_autoescape callee))) (S saved_depth)) ;;;
+  fun st =>
+    match w (t_node callee) st with
+    | (Ok _, st') => (Ok VUndef, set_depth (set_mode (set_ctx st' saved_ctx) saved_mode) saved_depth)
+    | (r, st') => (r, set_depth (set_mode (set_ctx st' saved_ctx) saved_mode) saved_depth)
+    end.
+
+(* messages without a bundle (walkMsgBody / walkPlural) *)
+Fixpoint plural_pick (mp : N) (i : Z) (dflt : list node) (cs : list node) : M unit :=
+  match cs with
+  | [] => _ <-- w (NMsg mp 0 [] [] dflt) ;;; ret tt
+  | NMsgPluralCase _ cv cbody :: r2 =>
+      if (i =? cv)%Z then (_ <-- w (NMsg mp 0 [] [] cbody) ;;; ret tt) else plural_pick mp i dflt r2
+  | _ :: _ => fail e_unknown
+  end.
+Fixpoint msg_body (mp : N) (ns : list node) : M unit :=
+  match ns with
+  | [] => ret tt
+  | NRawText p t :: r => _ <-- w (NRawText p t) ;;; msg_body mp r
+  | NMsgPlaceholder _ _ ph :: r => _ <-- w ph ;;; msg_body mp r
+  | NMsgPlural _ _ pv cases dflt :: r =>
+      v <-- eval pv ;;;
+      match v with
+      | VInt i => _ <-- plural_pick mp i dflt cases ;;; msg_body mp r
+      | _ => fail e_plural
+      end
+  | _ :: r => msg_body mp r
+  end.
+
+Definition walk_node (n : node) : M value :=
+  match n with
+  (* ---- values ---- *)
+  | NNull _ => ret VNull
+  | NString _ _ v => ret (VStr v)
+  | NInt _ z => ret (VInt z)
+  | NFloat _ f => ret (VFloat f)
+  | NBool _ x => ret (VBool x)
+  | NGlobal _ _ v => ret v
+  | NListLit _ items => vs <-- eval_list items ;;; fresh_list vs
+  | NMapLit _ items => kvs <-- maplit_items items ;;; fresh_map kvs
+  | NFunc _ name args =>
+      if fn_is name n_index || fn_is name n_isFirst || fn_is name n_isLast
+      then loop_func name args else call_func name args
+  | NDataRef _ key access =>
+      ref0 <-- (if bstr_eqb key s_ij
+                then match c_ij cf with Some v => ret v | None => fail e_noij end
+                else m_lookup key) ;;;
+      dataref_access access ref0
+  (* ---- operators ---- *)
+  | NNeg _ a =>
+      v <-- evaldef a ;;;
+      match v with
+      | VInt z => ret (VInt (wrap64 (- z)))
+      | VFloat f => ret (VFloat (fl_neg f))
+      | _ => fail e_notnumber
+      end
+  | NNot _ a => v <-- eval a ;;; ret (VBool (negb (truthy v)))
+  | NBin op _ a1 a2 =>
+      match op with
+      | OAdd | OSub | OMul | ODiv | OMod =>
+          x <-- evaldef a1 ;;; y <-- evaldef a2 ;;; lift (arith op x y)
+      | OEq => x <-- eval a1 ;;; y <-- eval a2 ;;; ret (VBool (equals x y))
+      | ONotEq => x <-- eval a1 ;;; y <-- eval a2 ;;; ret (VBool (negb (equals x y)))
+      | OLt | OLte | OGt | OGte =>
+          x <-- evaldef a1 ;;; y <-- evaldef a2 ;;; lift (compare_op op x y)
+      | OAnd => x <-- eval a1 ;;; if truthy x then (y <-- eval a2 ;;; ret (VBool (truthy y))) else ret (VBool false)
+      | OOr => x <-- eval a1 ;;; if truthy x then ret (VBool true) else (y <-- eval a2 ;;; ret (VBool (truthy y)))
+      | OElvis => x <-- eval a1 ;;; if is_nullish x then eval a2 else ret x
+      end
+  | NTern _ a1 a2 a3 => c <-- eval a1 ;;; if truthy c then eval a2 else eval a3
+  (* ---- output ---- *)
+  | NList _ nodes =>
+      _ <-- m_push ;;; _ <-- walk_list nodes ;;; _ <-- m_pop ;;; ret VUndef
+  | NRawText _ text => _ <-- write text ;;; ret VUndef
+  | NMsgHtmlTag _ text => _ <-- write text ;;; ret VUndef
+  | NPrint _ arg dirs =>
+      v <-- w arg ;;;
+      match v with
+      | VUndef => fail e_undefined
+      | _ =>
+          ds <-- print_dirs dirs ;;;
+          s <-- lift (value_string v) ;;;
+          st <-- get ;;;
+          ws <-- lift (print_writes (mode st) ds s) ;;;
+          _ <-- write_all ws ;;; ret VUndef
+      end
+  | NCss _ e suffix =>
+      pre <-- match e with
+              | None => ret []
+              | Some x => v <-- eval x ;;; s <-- lift (value_string v) ;;; ret (s ++ s_dash)
+              end ;;;
+      _ <-- write (pre ++ suffix) ;;; ret VUndef
+  | NDebugger _ => ret VUndef
+  | NHeaderParam _ _ _ _ _ => ret VUndef
+  | NLog _ body => _ <-- render_block body ;;; ret VUndef
+  (* ---- control flow ---- *)
+  | NIf _ conds => if_conds conds
+  | NFor _ var lst body ifempty =>
+      lv <-- eval lst ;;;
+      match lv with
+      | VList _ [] =>
+          match ifempty with
+          | Some ie => _ <-- w ie ;;; ret VUndef
+          | None => ret VUndef
+          end
+      | VList _ l =>
+          _ <-- m_push ;;;
+          _ <-- m_set (var ++ s_lastindex) (VInt (Z.of_nat (length l) - 1)) ;;;
+          _ <-- for_items var body 0%Z l ;;;
+          _ <-- m_pop ;;; ret VUndef
+      | _ => fail e_notlist
+      end
+  | NSwitch _ v cases => sv <-- eval v ;;; switch_cases sv cases
+  | NLetValue _ name e => v <-- eval e ;;; _ <-- m_set name v ;;; ret VUndef
+  | NLetContent _ name body => s <-- render_block body ;;; _ <-- m_set name (VStr s) ;;; ret VUndef
+  | NCall _ name alldata dat params =>
+      match find_template (r_templates (c_reg cf)) name with
+      | None => fail e_notemplate
+      | Some callee =>
+          cd <-- call_data alldata dat ;;;
+          cd' <-- call_params params cd ;;;
+          call_enter callee cd'
+      end
+  | NTemplate _ _ body ae _ =>
+      _ <-- modify (fun st => set_mode st (template_mode (mode st) ae)) ;;;
+      _ <-- w body ;;; ret VUndef
+  | NMsg mp id _ _ body => _ <-- msg_body mp body ;;; ret VUndef
+  | _ => fail e_unknown
+  end.
+
+(* state.walk: s.node = n, then the case for n *)
+Definition walk_body (n : node) : M value :=
+  _ <-- modify (fun st => set_cur st (pos_of n)) ;;; walk_node n.
+End Body.
 
 Fixpoint walk (fuel : nat) (n : node) {struct fuel} : M value :=
   match fuel with
   | O => lift OutOfFuel
-  | S fuel' =>
-    let eval (e : node) : M value :=                (* state.eval: s.node is restored on normal return *)
-      st0 <-- get ;;;
-      v <-- walk fuel' e ;;;
-      _ <-- modify (fun st => set_cur st (cur st0)) ;;;
-      ret v in
-    let evaldef (e : node) : M value :=
-      v <-- eval e ;;;
-      match v with VUndef => fail e_undefined | _ => ret v end in
-    let eval_list := fix eval_list (es : list node) : M (list value) :=
-      match es with
-      | [] => ret []
-      | e :: r => v <-- eval e ;;; vs <-- eval_list r ;;; ret (v :: vs)
-      end in
-    let walk_list := fix walk_list (ns : list node) : M unit :=
-      match ns with
-      | [] => ret tt
-      | x :: r => _ <-- walk fuel' x ;;; walk_list r
-      end in
-    let render_block (body : node) : M bstr :=      (* renderBlock: capture into a fresh buffer *)
-      _ <-- modify (fun st => set_bufs st ([] :: bufs st)) ;;;
-      _ <-- walk fuel' body ;;;
-      st <-- get ;;;
-      match bufs st with
-      | buf :: rest => _ <-- modify (fun st => set_bufs st rest) ;;; ret (concat_b (rev buf))
-      | [] => fail e_impossible
-      end in
-    _ <-- modify (fun st => set_cur st (pos_of n)) ;;;
-    match n with
-    (* ---- values ---- *)
-    | NNull _ => ret VNull
-    | NString _ _ v => ret (VStr v)
-    | NInt _ z => ret (VInt z)
-    | NFloat _ f => ret (VFloat f)
-    | NBool _ x => ret (VBool x)
-    | NGlobal _ _ v => ret v
-    | NListLit _ items => vs <-- eval_list items ;;; fresh_list vs
-    | NMapLit _ items =>
-        kvs <-- (fix go (l : list (bstr * node)) : M (list (bstr * value)) :=
-                   match l with
-                   | [] => ret []
-                   | (k, e) :: r => v <-- eval e ;;; m <-- go r ;;; ret (map_set m k v)
-                   end) items ;;;
-        fresh_map kvs
-    | NFunc _ name args =>
-        if fn_is name n_index || fn_is name n_isFirst || fn_is name n_isLast then
-          match args with
-          | NDataRef _ key _ :: _ =>
-              ix <-- m_lookup (key ++ s_index) ;;;
-              if fn_is name n_index then ret ix
-              else match ix with
-                   | VInt i =>
-                       if fn_is name n_isFirst then ret (VBool (i =? 0)%Z)
-                       else
-                         li <-- m_lookup (key ++ s_lastindex) ;;;
-                         match li with VInt l => ret (VBool (i =? l)%Z) | _ => fail e_type end
-                   | _ => fail e_type
-                   end
-          | _ => fail e_type
-          end
-        else
-          match func_arities name with
-          | None => fail e_func
-          | Some ar =>
-              if negb (mem (N.of_nat (length args)) ar) then fail e_arity
-              else
-                vs <-- eval_list args ;;;
-                r <-- lift (apply_func name vs) ;;;
-                match r with
-                | FVal v => ret v
-                | FNewList l => fresh_list_or_nil l
-                | FNewMap m => fresh_map m
-                end
-          end
-    | NDataRef _ key access =>
-        ref0 <-- (if bstr_eqb key s_ij
-                  then match c_ij cf with Some v => ret v | None => fail e_noij end
-                  else m_lookup key) ;;;
-        (fix go (acc : list node) (ref : value) : M value :=
-           match acc with
-           | [] => ret ref
-           | a :: rest =>
-               ik <-- match a with
-                      | NAccIndex _ _ i => ret (Some i, @nil N)
-                      | NAccKey _ _ k => ret (None, k)
-                      | NAccExpr _ _ e =>
-                          kv <-- eval e ;;;
-                          match kv with
-                          | VInt i => ret (Some i, @nil N)
-                          | _ => s <-- lift (value_string kv) ;;; ret (None, s)
-                          end
-                      | _ => fail e_unknown
-                      end ;;;
-               let '(oi, k) := ik in
-               match ref with
-               | VUndef | VNull => if is_nullsafe a then ret VNull else fail e_nullref
-               | VList _ l =>
-                   match oi with
-                   | Some i => if (i =? -1)%Z then fail e_index else go rest (list_index l i)
-                   | None => fail e_index
-                   end
-               | VMap _ m =>
-                   match k with
-                   | [] => fail e_key
-                   | _ => go rest (map_key m k)
-                   end
-               | _ => fail e_noncollection
-               end
-           end) access ref0
-    (* ---- operators ---- *)
-    | NNeg _ a =>
-        v <-- evaldef a ;;;
-        match v with
-        | VInt z => ret (VInt (wrap64 (- z)))
-        | VFloat f => ret (VFloat (fl_neg f))
-        | _ => fail e_notnumber
-        end
-    | NNot _ a => v <-- eval a ;;; ret (VBool (negb (truthy v)))
-    | NBin op _ a1 a2 =>
-        match op with
-        | OAdd | OSub | OMul | ODiv | OMod =>
-            x <-- evaldef a1 ;;; y <-- evaldef a2 ;;; lift (arith op x y)
-        | OEq => x <-- eval a1 ;;; y <-- eval a2 ;;; ret (VBool (equals x y))
-        | ONotEq => x <-- eval a1 ;;; y <-- eval a2 ;;; ret (VBool (negb (equals x y)))
-        | OLt | OLte | OGt | OGte =>
-            x <-- evaldef a1 ;;; y <-- evaldef a2 ;;; lift (compare_op op x y)
-        | OAnd => x <-- eval a1 ;;; if truthy x then (y <-- eval a2 ;;; ret (VBool (truthy y))) else ret (VBool false)
-        | OOr => x <-- eval a1 ;;; if truthy x then ret (VBool true) else (y <-- eval a2 ;;; ret (VBool (truthy y)))
-        | OElvis => x <-- eval a1 ;;; if is_nullish x then eval a2 else ret x
-        end
-    | NTern _ a1 a2 a3 => c <-- eval a1 ;;; if truthy c then eval a2 else eval a3
-    (* ---- output ---- *)
-    | NList _ nodes =>
-        _ <-- m_push ;;; _ <-- walk_list nodes ;;; _ <-- m_pop ;;; ret VUndef
-    | NRawText _ text => _ <-- write text ;;; ret VUndef
-    | NMsgHtmlTag _ text => _ <-- write text ;;; ret VUndef
-    | NPrint _ arg dirs =>
-        v <-- walk fuel' arg ;;;
-        match v with
-        | VUndef => fail e_undefined
-        | _ =>
-            ds <-- (fix go (l : list node) : M (list (bstr * list darg)) :=
-                      match l with
-                      | [] => ret (map (fun nm => (nm, @nil darg)) (c_oblig cf))
-                      | NDirective _ name args :: r =>
-                          (* evalPrint checks name and arity before evaluating the arguments *)
-                          match lookup_directive name with
-                          | None => fail e_nodirective
-                          | Some (arglens, _) =>
-                              if negb (check_num_args arglens (length args)) then fail e_arity
-                              else vs <-- eval_list args ;;; rest <-- go r ;;; ret ((name, map darg_of vs) :: rest)
-                          end
-                      | _ :: _ => fail e_unknown
-                      end) dirs ;;;
-            s <-- lift (value_string v) ;;;
-            st <-- get ;;;
-            ws <-- lift (print_writes (mode st) ds s) ;;;
-            _ <-- write_all ws ;;; ret VUndef
-        end
-    | NCss _ e suffix =>
-        pre <-- match e with
-                | None => ret []
-                | Some x => v <-- eval x ;;; s <-- lift (value_string v) ;;; ret (s ++ s_dash)
-                end ;;;
-        _ <-- write (pre ++ suffix) ;;; ret VUndef
-    | NDebugger _ => ret VUndef
-    | NHeaderParam _ _ _ _ _ => ret VUndef
-    | NLog _ body => _ <-- render_block body ;;; ret VUndef
-    (* ---- control flow ---- *)
-    | NIf _ conds =>
-        (fix go (cs : list node) : M value :=
-           match cs with
-           | [] => ret VUndef
-           | NIfCond _ None body :: _ => _ <-- walk fuel' body ;;; ret VUndef
-           | NIfCond _ (Some c) body :: r =>
-               v <-- eval c ;;;
-               if truthy v then (_ <-- walk fuel' body ;;; ret VUndef) else go r
-           | _ :: _ => fail e_unknown
-           end) conds
-    | NFor _ var lst body ifempty =>
-        lv <-- eval lst ;;;
-        match lv with
-        | VList _ [] =>
-            match ifempty with
-            | Some ie => _ <-- walk fuel' ie ;;; ret VUndef
-            | None => ret VUndef
-            end
-        | VList _ l =>
-            _ <-- m_push ;;;
-            _ <-- m_set (var ++ s_lastindex) (VInt (Z.of_nat (length l) - 1)) ;;;
-            _ <-- (fix go (i : Z) (items : list value) : M unit :=
-                     match items with
-                     | [] => ret tt
-                     | x :: r =>
-                         _ <-- m_set var x ;;;
-                         _ <-- m_set (var ++ s_index) (VInt i) ;;;
-                         _ <-- walk fuel' body ;;;
-                         go (i + 1)%Z r
-                     end) 0%Z l ;;;
-            _ <-- m_pop ;;; ret VUndef
-        | _ => fail e_notlist
-        end
-    | NSwitch _ v cases =>
-        sv <-- eval v ;;;
-        (fix go (cs : list node) : M value :=
-           match cs with
-           | [] => ret VUndef
-           | NSwitchCase _ values body :: r =>
-               hit <-- (fix any (vs : list node) : M bool :=
-                          match vs with
-                          | [] => ret false
-                          | x :: xs => cv <-- eval x ;;; if equals sv cv then ret true else any xs
-                          end) values ;;;
-               if hit || match values with [] => true | _ => false end
-               then (_ <-- walk fuel' body ;;; ret VUndef) else go r
-           | _ :: _ => fail e_unknown
-           end) cases
-    | NLetValue _ name e => v <-- eval e ;;; _ <-- m_set name v ;;; ret VUndef
-    | NLetContent _ name body => s <-- render_block body ;;; _ <-- m_set name (VStr s) ;;; ret VUndef
-    | NCall _ name alldata dat params =>
-        match find_template (r_templates (c_reg cf)) name with
-        | None => fail e_notemplate
-        | Some callee =>
-            caller <-- get ;;;
-            cd <-- (if alldata then
-                      match sc_alldata (ctx caller) with
-                      | Some s => ret (sc_push s)
-                      | None => fail e_impossible
-                      end
-                    else match dat with
-                         | Some e =>
-                             dv <-- eval e ;;;
-                             match dv with
-                             | VMap id m => ret (sc_push (new_scope id m))
-                             | _ => fail e_notmap
-                             end
-                         | None => ret [fresh_frame]
-                         end) ;;;
-            (* params are evaluated in the caller's scope and set on the callee's *)
-            cd' <-- (fix go (ps : list node) (cd : scope) : M scope :=
-                       match ps with
-                       | [] => ret cd
-                       | NParamValue _ k v :: r => x <-- eval v ;;; go r (sc_set cd k x)
-                       | NParamContent _ k c :: r => s <-- render_block c ;;; go r (sc_set cd k (VStr s))
-                       | _ :: _ => fail e_unknown
-                       end) params cd ;;;
-            st1 <-- get ;;;
-            let saved_ctx := ctx st1 in
-            let saved_mode := mode st1 in
-            let saved_depth := depth_ st1 in
-            _ <-- modify (fun st => set_depth (set_mode (set_ctx st (sc_enter cd')) (call_mode (t_ns_autoescape callee))) (S saved_depth)) ;;;
-            fun st =>
-              match walk fuel' (t_node callee) st with
-              | (Ok _, st') => (Ok VUndef, set_depth (set_mode (set_ctx st' saved_ctx) saved_mode) saved_depth)
-              | (r, st') => (r, set_depth (set_mode (set_ctx st' saved_ctx) saved_mode) saved_depth)
-              end
-        end
-    | NTemplate _ _ body ae _ =>
-        _ <-- modify (fun st => set_mode st (template_mode (mode st) ae)) ;;;
-        _ <-- walk fuel' body ;;; ret VUndef
-    (* ---- messages without a bundle (walkMsgBody / walkPlural) ---- *)
-    | NMsg mp id _ _ body =>
-        let walk_body := fix walk_body (ns : list node) : M unit :=
-          match ns with
-          | [] => ret tt
-          | NRawText p t :: r => _ <-- walk fuel' (NRawText p t) ;;; walk_body r
-          | NMsgPlaceholder _ _ ph :: r => _ <-- walk fuel' ph ;;; walk_body r
-          | NMsgPlural _ _ pv cases dflt :: r =>
-              v <-- eval pv ;;;
-              match v with
-              | VInt i =>
-                  _ <-- (fix pick (cs : list node) : M unit :=
-                           match cs with
-                           | [] => _ <-- walk fuel' (NMsg mp 0 [] [] dflt) ;;; ret tt
-                           | NMsgPluralCase _ cv cbody :: r2 =>
-                               if (i =? cv)%Z then (_ <-- walk fuel' (NMsg mp 0 [] [] cbody) ;;; ret tt) else pick r2
-                           | _ :: _ => fail e_unknown
-                           end) cases ;;;
-                  walk_body r
-              | _ => fail e_plural
-              end
-          | _ :: r => walk_body r
-          end in
-        _ <-- walk_body body ;;; ret VUndef
-    | _ => fail e_unknown
-    end
+  | S fuel' => walk_body (walk fuel') n
   end.
 End Walk.
 
